@@ -134,6 +134,19 @@ SUITES["gen_scalar.key"] = suite_gen_key
 # functions, and the run-time library's primitives themselves (`pymel.*`) vs NumPy on the shapes the validating
 # functions never let through — lean/MirModel/PyMel.lean is the translator's semantic assumption
 
+def _gm_available():
+    """the functions the translator emitted on THIS run (driver op `gen.melody "?"`): cases are generated for those only — a
+    function that left the subset is reported as a translator problem / broken theorems, never as a disagreeing input"""
+    import core
+    import proto
+    try:
+        outs = core.run_driver(["0 gen.melody %s\n" % proto.enc("?")])
+        v = proto.dec_line(outs[0])[1]
+    except Exception:  # noqa: BLE001
+        return set()
+    return set(v) if isinstance(v, list) else set()
+
+
 def _gm_retarget(case, extra=()):
     """a case of a hand-model melody suite asked of the generated definition instead"""
     fn = case.op.split(".", 1)[1]
@@ -220,10 +233,17 @@ def _gm_prim_cases(rng, tier):
 
 
 def suite_gen_melody(rng, tier, shard, nshards):
+    avail = _gm_available()
+    for c in _suite_gen_melody(rng, tier, shard, nshards):
+        if c.op != "gen.melody" or c.args[0] in avail:
+            yield c
+
+
+def _suite_gen_melody(rng, tier, shard, nshards):
     """frame metrics: ALL frame sequences up to length 1 (quick: 2 with a reduced alphabet) over voicings {0, 1/2, 1} and
     cent pairs on / next to / an octave from the tolerance, every combination of lengths 0..3 for the unvalidated voicing
     rates (broadcasting), the existing melody streams (frame measures, voicing measures, chroma folding, constant-hop
-    time base, freq_to_voicing) re-targeted at the generated definitions, and the run-time primitives against NumPy"""
+    time base, freq_to_voicing, evaluate on the E and D streams) re-targeted at the generated definitions, and the run-time primitives against NumPy"""
     import itertools
     from fractions import Fraction as Fr
     from suites import melody as MS
@@ -257,7 +277,7 @@ def suite_gen_melody(rng, tier, shard, nshards):
         yield c
     # the existing melody streams asked of the generated definitions
     for name, cap in (("melody.frame_measures", 200), ("melody.voicing_measures", 200), ("melody.chroma_dist", 100),
-                      ("melody.constant_hop_timebase", 150), ("melody.hz_conversions", 150)):
+                      ("melody.constant_hop_timebase", 150), ("melody.hz_conversions", 150), ("melody.evaluate", 150)):
         for j, c in enumerate(MS.SUITES[name](rng, tier, shard, nshards)):
             if tier == "quick" and j >= cap:
                 break
